@@ -294,7 +294,9 @@ where
         rng_algorithm: RngAlgorithm::ChaCha,
         rng_seed: RngSeed::Fixed(seed),
         max_shrink_iters: max_shrink,
-        max_shrink_time: 0,
+        // shrinking is bounded by wall time too: expensive failing cases (a wedged worker costs seconds per attempt)
+        // must not push the worker into its watchdog
+        max_shrink_time: if ctx.tier == Tier::Quick { 20_000 } else { 90_000 },
         verbose: 0,
         max_local_rejects: 65_536,
         max_global_rejects: 65_536,
